@@ -6,7 +6,7 @@
    resource side: every size that is allocated for is bounded by a documented limit BEFORE the
    allocation, and reading frames makes progress on every input. *)
 From Coq Require Import List NArith ZArith Bool.
-From Stef Require Import Bits BitIO BitIOFacts Varint Codecs CodecFacts Schema Wire Frame FrameFacts SafetyFacts.
+From Stef Require Import Bits BitIO BitIOFacts Varint Codecs CodecFacts Schema Wire Frame FrameFacts SafetyFacts Nesting NestingFacts.
 Import ListNotations.
 Open Scope N_scope.
 
@@ -89,3 +89,18 @@ Theorem C03_dec_result_size_refuted : exists rs' a,
   wire_size a = 10001 /\ r_alloc rs' = 10000 * elem_size zs_sizes zs_elem.
 Proof. exact dec_result_size_refuted. Qed.
 Print Assumptions C03_dec_result_size_refuted.
+
+(* Nesting guard (EnterNested / LeaveNested of go/pkg/allocsizechecker.go, limit of go/pkg/limits.go):
+   for EVERY value tree the guarded recursion of a record decode succeeds exactly when the counted
+   depth fits under the limit, fails before descending further otherwise, and leaves the counter
+   where it started (so the per-record reset is not what keeps later records decodable). *)
+Theorem C03_nesting_guard : forall t lim d, (d <= lim)%N ->
+  walk lim d t = if (d + cdepth t <=? lim)%N then Some d else None.
+Proof. exact walk_characterisation. Qed.
+Print Assumptions C03_nesting_guard.
+
+Theorem C03_record_nesting_guard : forall w,
+  walk record_nesting_limit 0 (vtree_of_wire w) =
+  if (wire_nesting w <=? record_nesting_limit)%N then Some 0%N else None.
+Proof. exact record_nesting_guard. Qed.
+Print Assumptions C03_record_nesting_guard.
